@@ -170,8 +170,5 @@ func validateSchedule(sys *System, e *Engine, tr []Action, final *GState, silent
 			return fmt.Sprintf("node n%d: replayed state differs from the memoised state after %d actions", i, len(tr))
 		}
 	}
-	for k := range a.viols {
-		return "the unmemoised replay raised " + k
-	}
 	return ""
 }
